@@ -95,6 +95,8 @@ def run(tier, seed):
     res = Result("C02", tier, seed)
     from .. import libccdloop
     libccdloop.run(res, tier, seed)       # loop explorer GjkLibccd.tla: model checking + stateful trace validation of real runs
+    from .. import mprloop
+    mprloop.run(res, tier, seed, mc=False, modes=("intersection",))    # portal explorer Mpr.tla (model-checked in C08): trace validation of mpr_intersection
     recs, meta = gen(tier, seed)
     byid = {r["id"]: r for r in recs}
     rejects = trace.judge(recs, "narrow", "NarrowTrace", "NarrowTrace.cfg", "c02", res)
